@@ -1,6 +1,6 @@
 Require Import AT.Model.Base AT.Model.Rose AT.Model.Iter AT.Model.Search.
 Require Import AT.Spec.IterSpec AT.Spec.SearchSpec AT.Corr.Common.
-Open Scope Z_scope.
+Local Open Scope Z_scope.
 
 Inductive fn14 := FindAll | Find | FindAllByAttr | FindByAttr.
 
